@@ -212,3 +212,28 @@ check('C15', 'other',
       "Structure <= 3 chemicals, <= 2 earlier calls in S; reuse groups require two liquids with |K - 1| > 1e-3. Known findings F-C15-2a-c (label swap on reuse), F-C15-3a-b "
       "(pseudo-equilibrium K never updated), F-C15-4 (shgo non-convergence) printed as KNOWN-FINDING. 1 defect repaired.",
       "symbolic execution of the real LLE/SLE bookkeeping under an optimiser contract with z3 discharge + bounded run-time contracts on the real solvers", "DESIGN.md 4/C15")
+
+
+# --- addenda after the second round of seeded changes (appended to level_note)
+ADDENDA = {
+ 'C01': "Added: C01/history (two operations in sequence without a cache reset, foreign packages listing the same chemicals in different orders).",
+ 'C06': "Added: Hf revised after compiling + refresh_constants; one two-reaction set per reaction class under adiabatic_reaction (mode S) and reaction sets on real models (mode B). "
+        "Trusted: the property memo of the streams is switched off in these groups (a key that never records a state; memo correctness is C14).",
+ 'C07': "Added: copy histories (Chemical.copy / copy_models_from / at_state(copy=True) followed by model edits; mode S and real chemicals in mode B). F-C07-4 repaired; F-C07-5 "
+        "(entropy quantisation inside the thermo dependency, thorough tier) printed as KNOWN-FINDING.",
+ 'C08': "Added: the assumed contract of the bracketing solver now has a REQUIRES side (residuals handed over = callback values at the bracket ends) discharged at all six call sites; "
+        "bounded inputs on which the real secant leaves the feasible region (C08/fallback_real_solvers). F-C08-K2d..i (unconverged inner Wegstein) printed as KNOWN-FINDING.",
+ 'C09': "Now also under contract (mode S): indexing get/set, reductions, reflected and unary operators, writes to read-only targets (C09/read_only); 64 kernels in mode U incl. "
+        "SparseLogicalVector kernels; logical operators are bounded (mode B). F-C09-3 (read-only SparseArray accepted in-place arithmetic and clear) repaired.",
+ 'C11': "Added: streams joined by MultiStream.from_streams with views built before, indexers switched to another package and back, reactions defined on another package (mode B).",
+ 'C12': "Added: views through interchangeable labels across phase-set changes and across growth in place (copy_like/mix_from). F-C12-7 repaired.",
+ 'C13': "Added: flows read by name with reordered packages; identity clauses on what the equilibrium objects are bound to (assumption A-eq-writes: an equilibrium call writes only to "
+        "the imol and thermal_condition of its object); real VLE after link/unlink/proxy/copy/pickle histories (mode B). F-C13-14 repaired.",
+ 'C15': "Added: which chemicals the remembered LLE coefficients belong to (mode S clauses), refill histories with other chemical lists (mode B), histories of sle calls with different "
+        "solutes on one stream (mode S). F-C15-6 repaired.",
+ 'C18': "Mode U models unit IDs as an uninterpreted function of the object identity (equality, truthiness) so that ID comparisons are decided and replayed on real objects.",
+}
+GENERAL = (" When the symbolic engine cannot execute a configuration of the tree under check (unsupported operation, path or wall-clock budget) the same contract body is run natively on "
+           "24 deterministic samples; only a clause that is in the baseline of discharged obligations and fails there is reported (with that input as replay).")
+for _p, _c in CHECKS.items():
+    _c['level_note'] = _c['level_note'] + (' ' + ADDENDA[_p] if _p in ADDENDA else '') + (GENERAL if _p != 'C18' else '')
